@@ -144,7 +144,16 @@ func runC19(c *Ctx, r *Report) {
 	}
 	for k, names := range byField {
 		sort.Strings(names)
-		if len(names) > 1 && !synonyms[k] {
+		allKnown := true
+		for _, n := range names {
+			if _, ok := specDriverOptions[n]; !ok {
+				allKnown = false
+			}
+		}
+		if len(names) > 1 && !synonyms[k] && !allKnown {
+			r.Notes = append(r.Notes, fmt.Sprintf("C19/O3: setting %s is written by %v, one of which is not in the specification table (a second spelling of an option is not a violation)", k, names))
+		}
+		if len(names) > 1 && !synonyms[k] && allKnown {
 			r.Bad("C19/O3", "setting "+k, "-", fmt.Sprintf("setting %s is written by several options %v: each takes effect on something it does not name", k, names))
 		}
 	}
